@@ -166,7 +166,7 @@ def run(ctx):
     ctx.assume("colour mapping: vertex property values pairwise at least 0.02 apart (a constant property makes the two-slope normalisation degenerate)")
     ctx.out_of_scope("volume convergence, 'encloses every atom and no neighbour', convergence to the isovalue with shrinking spacing (limits); smoothing; "
                      "mesh topology of the compiled kernel unless section 'kernel' reports it")
-    secs = [("glue", part_glue), ("box", part_box), ("wrappers", part_wrappers)]
+    secs = [("glue", part_glue), ("box", part_box), ("wrappers", part_wrappers), ("frontends", part_frontends)]
     try:
         from . import c06_kernel
         secs.append(("kernel", c06_kernel.part_kernel))
@@ -175,7 +175,7 @@ def run(ctx):
     t0 = time.time()
     from . import c03 as _c03
     ctx.stub("Hirshfeld (stockholder) surfaces of molecules in crystals take the exterior atoms from Crystal.molecule_environment: that it returns every atom within the radius is C03's lemma A, run here as a dependency section")
-    secs += _c03.dependency_sections({"molecule_environment"})
+    secs += _c03.dependency_sections({"molecule_environment", "molecule_environments"})
     ctx.parallel_sections([(n_, (lambda c, f=f_, n_=n_: (f(c), c.note("section %s took %.1fs" % (n_, time.time() - t0)))[0])) for n_, f_ in secs])
 
 
@@ -440,6 +440,153 @@ def part_wrappers(ctx):
     else:
         ok, det = replay_wrappers({})
         ctx.concrete_note("user-level wrappers return a closed mesh on water (real API)", not ok, str(det))
+
+
+def replay_frontend(data):
+    """real API: a water molecule in a small P1 cell (enclosed by its own images); the Hirshfeld surface requested at an
+    isovalue other than the default has its vertices at that weight (within the discretisation of a 0.4 A grid)"""
+    from chmpy.crystal import Crystal, UnitCell, SpaceGroup, AsymmetricUnit
+    from chmpy.core.element import Element
+    from chmpy import StockholderWeight
+    bad = []
+    uc = UnitCell.from_lengths_and_angles([5.6, 6.1, 5.9], [np.pi / 2] * 3)
+    cart = np.array([[2.8, 3.0, 3.07], [2.8, 3.76, 2.47], [2.8, 2.24, 2.47]])
+    c = Crystal(uc, SpaceGroup(1), AsymmetricUnit([Element[8], Element[1], Element[1]], uc.to_fractional(cart)))
+    want = float(data.get("isovalue", 0.35))
+    want = want if 0.25 <= want <= 0.75 and abs(want - 0.5) > 0.1 else 0.35
+    try:
+        for kind in ("mol", "atom"):
+            meshes = c.stockholder_weight_isosurfaces(kind=kind, isovalue=want, separation=0.4, radius=7.0)
+            if kind == "mol":
+                mol, n_e, n_p = c.molecule_environments(radius=7.0)[0]
+                sw = StockholderWeight.from_arrays(mol.atomic_numbers, mol.positions, n_e, n_p)
+            else:
+                sr = c.atomic_surroundings(radius=7.0)[0]
+                sw = StockholderWeight.from_arrays([sr["centre"]["element"]], [sr["centre"]["cart_pos"]], sr["neighbours"]["element"], sr["neighbours"]["cart_pos"])
+            w = sw.weights(np.asarray(meshes[0].vertices, dtype=np.float32))
+            if abs(float(np.median(w)) - want) > 0.05:
+                bad.append("Crystal.stockholder_weight_isosurfaces(kind=%r, isovalue=%.2f): the vertices sit at weight %.3f (median)" % (kind, want, float(np.median(w))))
+    except Exception as e:
+        bad.append("Crystal.stockholder_weight_isosurfaces raises %s: %s" % (type(e).__name__, e))
+    try:
+        from chmpy import PromoleculeDensity
+        mol = c.symmetry_unique_molecules()[0]
+        for lvl in (0.002, 0.02):
+            for tag, mesh in (("Molecule.promolecule_density_isosurface", mol.promolecule_density_isosurface(isovalue=lvl, separation=0.3)),
+                              ("Crystal.promolecule_density_isosurfaces", c.promolecule_density_isosurfaces(isovalue=lvl, separation=0.3)[0])):
+                rho = PromoleculeDensity((mol.atomic_numbers, mol.positions)).rho(np.asarray(mesh.vertices, dtype=np.float32))
+                if abs(float(np.median(rho)) / lvl - 1) > 0.3:
+                    bad.append("%s(isovalue=%g): the vertices sit at density %.4g (median)" % (tag, lvl, float(np.median(rho))))
+    except Exception as e:
+        bad.append("promolecule front end raises %s: %s" % (type(e).__name__, e))
+    return bool(bad), bad
+
+
+def part_frontends(ctx):
+    """the crystal- and molecule-level front ends hand the requested isovalue, grid separation and neighbour radius on unchanged
+    (symbolic values; the mesher, the density objects and the neighbour queries are recording stubs)"""
+    import chmpy
+    import chmpy.surface as realsurf
+    from chmpy.crystal.crystal import Crystal
+    from chmpy.core.molecule import Molecule
+    ctx.encode(Crystal.stockholder_weight_isosurfaces, Crystal.promolecule_density_isosurfaces, Molecule.promolecule_density_isosurface)
+    ctx.stub("front ends: chmpy.surface meshers, StockholderWeight/PromoleculeDensity constructors, molecule_environments and atomic_surroundings are recording stubs")
+    cm = load_shimmed("chmpy.crystal.crystal")
+    mm = load_shimmed("chmpy.core.molecule")
+    iso_s, sep_s, rad_s = Sym(z3.Real("isovalue")), Sym(z3.Real("separation")), Sym(z3.Real("radius"))
+
+    class Stop(Exception):
+        pass
+
+    class FakeDensity:
+        def __init__(self, *a, **k):
+            pass
+
+        @classmethod
+        def from_arrays(cls, *a, **k):
+            return cls()
+
+    class FakeMolecule:
+        atomic_numbers, positions = np.array([8]), np.zeros((1, 3))
+
+    failures = []
+
+    def scenario(tag, call, expect):
+        rec = {}
+
+        def mesher(dens, isovalue="default", sep="default", **kw):
+            rec["isovalue"], rec["sep"] = isovalue, sep
+            raise Stop()
+        saved = (realsurf.stockholder_weight_isosurface, realsurf.promolecule_density_isosurface, chmpy.StockholderWeight, chmpy.PromoleculeDensity)
+        realsurf.stockholder_weight_isosurface = realsurf.promolecule_density_isosurface = mesher
+        chmpy.StockholderWeight = chmpy.PromoleculeDensity = FakeDensity
+        try:
+            ex = Explorer()
+            paths = ex.run(lambda: call(rec))
+        finally:
+            (realsurf.stockholder_weight_isosurface, realsurf.promolecule_density_isosurface, chmpy.StockholderWeight, chmpy.PromoleculeDensity) = saved
+        ctx.add_paths(ex)
+        for p in paths:
+            if not isinstance(p.exc, Stop):
+                ctx.harness_error("front end %s did not reach the mesher: %r" % (tag, p.exc))
+                return
+            for key, sym in expect.items():
+                got = rec.get(key, "missing")
+                if isinstance(got, str):
+                    ok = False
+                    r = None
+                else:
+                    r = ctx.query("front end %s: %s handed on is the one requested" % (tag, key), p.pc, (Sym._lift(got) == sym).t, ex=ex)
+                    ok = r.verdict != "cex"
+                if not ok:
+                    if r is None:
+                        ctx.record("front end %s: %s handed on is the one requested" % (tag, key), "counterexample", nontrivial=True)
+                    val = None
+                    try:
+                        val = float(model_value(r.model, iso_s.t)) if key == "isovalue" else None
+                    except Exception:
+                        val = None
+                    failures.append((tag, key, val))
+
+    def crystal(kind):
+        def call(rec):
+            cr = cm.Crystal.__new__(cm.Crystal)
+            cr.molecule_environments = lambda radius="default", **k: (rec.__setitem__("radius", radius), [(FakeMolecule(), np.array([1]), np.ones((1, 3)))])[1]
+            cr.atomic_surroundings = lambda radius="default": (rec.__setitem__("radius", radius), [{"centre": {"element": 8, "cart_pos": np.zeros(3)},
+                                                                                                  "neighbours": {"element": np.array([1]), "cart_pos": np.ones((1, 3))}}])[1]
+            return cr.stockholder_weight_isosurfaces(kind=kind, isovalue=iso_s, separation=sep_s, radius=rad_s)
+        return call
+    for kind in ("mol", "atom"):
+        scenario("Crystal.stockholder_weight_isosurfaces(kind=%r)" % kind, crystal(kind), {"isovalue": iso_s, "sep": sep_s, "radius": rad_s})
+
+    def molecule(rec):
+        mol = mm.Molecule.__new__(mm.Molecule)
+        from chmpy.core.element import Element
+        mol.elements, mol.positions = [Element[8]], np.zeros((1, 3))
+        return mol.promolecule_density_isosurface(isovalue=iso_s, separation=sep_s)
+    scenario("Molecule.promolecule_density_isosurface", molecule, {"isovalue": iso_s, "sep": sep_s})
+
+    def crystal_pro(rec):
+        got = {}
+
+        class M:
+            def promolecule_density_isosurface(self, **kw):
+                got.update(kw)
+                rec["isovalue"], rec["sep"] = kw.get("isovalue", "missing"), kw.get("separation", kw.get("resolution", "missing"))
+                raise Stop()
+        cr = cm.Crystal.__new__(cm.Crystal)
+        cr.symmetry_unique_molecules = lambda: [M()]
+        return cr.promolecule_density_isosurfaces(isovalue=iso_s, separation=sep_s)
+    scenario("Crystal.promolecule_density_isosurfaces", crystal_pro, {"isovalue": iso_s, "sep": sep_s})
+    if failures:
+        tag, key, val = failures[0]
+        ctx.violation("front:%s" % key, "%s does not hand the requested %s to the mesher" % (tag, key), {"isovalue": float(val) if val is not None else 0.35}, replay_frontend, soft=(key == "radius"))
+    else:
+        ok, det = replay_frontend({})
+        ctx.concrete_note("front ends give surfaces at the requested isovalue on a water crystal (real API)", not ok, str(det))
+
+
+REPLAY["front"] = replay_frontend
 
 
 class _MinMax:
